@@ -420,6 +420,15 @@ SendToSubscriber:
 			return
 		}
 
+		// the subscriber is being closed: do not hand out another message while the
+		// previous one may still be unsettled (select below could pick the send case)
+		select {
+		case <-s.closing:
+			s.logger.Trace("Closing, message discarded", logFields)
+			return
+		default:
+		}
+
 		verifhook.At("gochannel.send.before_chan", msg.UUID, s.uuid)
 		select {
 		case s.outputChannel <- msgToSend:
